@@ -464,8 +464,12 @@ class CatalogWriter(AbstractContextManager, HandlesDataChunk):
     def __enter__(self) -> Self:
         return self
 
-    def __exit__(self, *args, **kwargs) -> None:
-        self.finalize()
+    def __exit__(self, exc_type, *args, **kwargs) -> None:
+        if exc_type is None:
+            self.finalize()
+        else:  # creation failed, do not mark the cache directory as complete
+            for writer in self.writers.values():
+                writer.close()
 
     @property
     def num_patches(self) -> int:
